@@ -5,6 +5,7 @@ mod explore;
 mod faults;
 mod inv;
 mod keys;
+mod mapprobes;
 mod mapsut;
 mod props;
 mod report;
